@@ -277,6 +277,13 @@ fn exec_hex(ws: &[&str]) -> String {
                 None => format!("panic ; {} x{}", b.len(), hexstr(&b)),
             }
         }
+        ["empty"] => {
+            // Hex::empty(): built from no bytes at all
+            match guard(|| { let x = Hex::empty(); format!("ok {} {} x{} {} {}", x.len(), x.print(), hexstr(x.bytes()), x.is_empty(), x == Hex::from_slice(&[])) }) {
+                Some(s) => format!("{s} ; ok 0 -- x true true"),
+                None => "panic ; ok 0 -- x true true".to_string(),
+            }
+        }
         ["index", h, i] => {
             let (Some(x), Some(b), Ok(i)) = (parse_hex_tok(h), tok_bytes(h), i.parse::<usize>()) else { return bad() };
             format!("{} ; {}", show_opt_byte(guard(|| x[i])), show_opt_byte(guard(|| b[i])))
